@@ -140,3 +140,29 @@ func VH_C10_C12_DecodeString() {
 		vh.Reach("reject-short")
 	}
 }
+
+// VH_C10_C12_ItemStream: two items back to back - a uint head (symbolic, any head size chosen by its first byte)
+// followed by a byte string of 0..2 bytes, on 0..8 symbolic bytes: the second decode starts exactly where the
+// first ended (values and consumption agree with the reference reader on the concatenation).
+func VH_C10_C12_ItemStream() {
+	vh.MustReach("both")
+	in := vh.Bytes("in", vh.Choose(9))
+	r, remaining := c12Source(in)
+	d := NewDecoder(r)
+	n, err1 := d.DecodeUint()
+	m1, a1, u1, ok1 := refHead(in)
+	vh.Assert((err1 == nil) == (ok1 && m1 == 0), "first item")
+	if err1 != nil || !ok1 {
+		return
+	}
+	vh.Assert(n == a1 && len(in)-remaining() == u1, "first item value and consumption")
+	bs, err2 := d.DecodeByteString()
+	rest := in[u1:]
+	m2, a2, u2, ok2 := refHead(rest)
+	want2 := ok2 && m2 == 2 && a2 <= uint64(len(rest)-u2)
+	vh.Assert((err2 == nil) == want2, "second item is decoded from exactly where the first ended")
+	if err2 == nil && want2 {
+		vh.Reach("both")
+		vh.Assert(string(bs) == string(rest[u2:u2+int(a2)]) && len(in)-remaining() == u1+u2+int(a2), "second item value and consumption")
+	}
+}
